@@ -64,6 +64,11 @@ CHECKS.update({
          'Seeded byte strings (structured generator over header/separator/line-ending/MIME shapes, hostile generators, raw bytes, up to 64 KiB, byte mutations) are appended through the simulated connection with {n} or {n+} literals and seeded chunking, optionally copied or moved by a second session while the first fetches; BODY[], RFC822, RFC822.SIZE, BODY[HEADER]+BODY[TEXT], partial ranges and the octet counts of every leaf part in BODYSTRUCTURE are compared with the appended bytes for the source and the copy.',
          'The statement is a function of the input bytes and the backend; the simulator contributes the delivery path, storage and the second session, the deciding step is seeded input generation. Trusted: the strict response parser that extracts literals.'),
 })
+CHECKS.update({
+ 'C18': ('exploration', '4/C18', 'metamorphic pairs of deterministic runs (plain vs. respelled program); harness modified-UTF-7 decoder; direct-call round trip of parsed values',
+         'Each seeded symbolic program is executed twice from identical initial state in the simulator, once in plain spelling and once with every astring independently spelled as atom/quoted/{n}/{n+} (literals possibly sent before the continuation request, chunked anywhere), random case of command words, flags and attributes; tagged results, untagged data and final mailbox dumps must be equal, and every name reported by LIST/LSUB/STATUS must decode, with the harness\'s own decoder, to a name that was sent. The round-trip clause is checked by direct calls to the parse classes on seeded values - no simulator is involved in that clause.',
+         'Trusted: simulator determinism for the pairing; only canonical modified-UTF-7 and no extra spacing are generated.'),
+})
 NOT_YET = {}
 def main():
     props = [json.loads(l) for l in open(os.path.join(ROOT, 'properties.jsonl'))]
